@@ -35,6 +35,10 @@ type ExploreConfig struct {
 	MaxSteps  int
 	// ForceInline: traverse even if the callee is in the purity table.
 	ForceInline func(fn *ssa.Function) bool
+	// InlineStd: functions outside the module (generic helpers of the standard library such as
+	// slices.Contains / slices.ContainsFunc) that are traversed in place; combine with ForceInline
+	// when they are in the purity table.
+	InlineStd func(fn *ssa.Function) bool
 	// KeepPure records pure calls as events too.
 	KeepPure bool
 	// NoFold disables pruning by literal contradiction (used by the store rules).
@@ -959,7 +963,12 @@ func (x *explorer) eval(st *state, fr *frame, v ssa.Value) *Term {
 		return mk("slice", "", args...)
 	case *ssa.MakeSlice, *ssa.MakeMap, *ssa.MakeChan:
 		st.nNew++
-		return &Term{Op: "make", Name: fmt.Sprintf("f%d.%s", fr.id, v.Name()), Type: v.Type()}
+		mt := &Term{Op: "make", Name: fmt.Sprintf("f%d.%s", fr.id, v.Name()), Type: v.Type()}
+		if ms, ok := v.(*ssa.MakeSlice); ok {
+			// len(make([]T, n)) is n
+			st.mem["len:"+mt.Key()] = x.termOf(st, fr, ms.Len)
+		}
+		return mt
 	case *ssa.MakeClosure:
 		fn := v.Fn.(*ssa.Function)
 		var bs []*Term
@@ -1075,9 +1084,20 @@ func (x *explorer) load(st *state, addr *Term, typ types.Type) *Term {
 		return &Term{Op: "field", Name: addr.Name, Args: []*Term{base}, Type: typ}
 	case "iaddr":
 		a, i := addr.Args[0], addr.Args[1]
+		// x[:hi][i] is x[i]
+		for a.Op == "slice" && len(a.Args) == 3 && sliceFromStart(a) {
+			a = a.Args[0]
+		}
 		if a.Op == "lit" {
 			if k, ok := i.IntConst(); ok && k >= 0 && int(k) < len(a.Args) {
 				return a.Args[k]
+			}
+		}
+		if a.Op == "call" {
+			if es, ok := appendElems(a); ok {
+				if k, ok := i.IntConst(); ok && k >= 0 && int(k) < len(es) {
+					return es[k]
+				}
 			}
 		}
 		return mk("idx", "", a, i)
@@ -1411,6 +1431,39 @@ func intervalOf(facts []Fact, t *Term) (lo, hi *int64, has bool) {
 	return
 }
 
+// appendElems: the elements of a slice built on this path by appending
+// explicit elements to nil or to a literal (var out []T; out = append(out, v)
+// in an unrolled loop): its length and its elements are known.
+func appendElems(t *Term) ([]*Term, bool) {
+	switch {
+	case t.Op == "nil":
+		return nil, true
+	case t.Op == "lit":
+		return t.Args, true
+	case t.Op == "call" && t.Name == "append" && len(t.Args) == 2:
+		head, ok := appendElems(t.Args[0])
+		if !ok {
+			return nil, false
+		}
+		tail, ok := appendElems(t.Args[1])
+		if !ok || t.Args[1].Op == "call" {
+			return nil, false
+		}
+		return append(append([]*Term{}, head...), tail...), true
+	}
+	return nil, false
+}
+
+// sliceFromStart: slice(x, _, hi) or slice(x, 0, hi)
+func sliceFromStart(t *Term) bool {
+	lo := t.Args[1]
+	if lo.Op == "const" && lo.Name == "_" {
+		return true
+	}
+	k, ok := lo.IntConst()
+	return ok && k == 0
+}
+
 func litLen(t *Term) (int64, bool) {
 	if t.Op == "call" && t.Name == "len" && len(t.Args) == 1 && t.Args[0].Op == "nil" {
 		return 0, true
@@ -1418,6 +1471,9 @@ func litLen(t *Term) (int64, bool) {
 	if t.Op == "call" && t.Name == "len" && len(t.Args) == 1 {
 		if t.Args[0].Op == "lit" {
 			return int64(len(t.Args[0].Args)), true
+		}
+		if es, ok := appendElems(t.Args[0]); ok {
+			return int64(len(es)), true
 		}
 		if s, ok := t.Args[0].StrConst(); ok {
 			return int64(len(s)), true
@@ -1576,7 +1632,7 @@ func (x *explorer) doCall(st *state, fr *frame, c *ssa.CallCommon, bind *ssa.Cal
 	if isBound {
 		pureStatic = false
 	}
-	if !pureStatic && len(static.Blocks) > 0 && (isBound || (isSubjectPkg(fnPkgPath(static)) && (x.cfg.Inline(static) || x.cfg.ForceInline != nil && x.cfg.ForceInline(static) || x.argDriven(static, cargs) || constantFunc(static)))) && fr.depth < x.cfg.MaxDepth+2 && (isBound || fr.depth < x.cfg.MaxDepth) && !x.onStackFor(st, static) {
+	if !pureStatic && len(static.Blocks) > 0 && (isBound || (isSubjectPkg(fnPkgPath(static)) && (x.cfg.Inline(static) || x.cfg.ForceInline != nil && x.cfg.ForceInline(static) || x.argDriven(static, cargs) || constantFunc(static))) || x.cfg.InlineStd != nil && x.cfg.InlineStd(static)) && fr.depth < x.cfg.MaxDepth+2 && (isBound || fr.depth < x.cfg.MaxDepth) && !x.onStackFor(st, static) {
 		nf := x.newFrame(st, static, args, free, fr.depth+1)
 		nf.inDefer = fr.inDefer || d != nil
 		if bind != nil {
@@ -1610,6 +1666,15 @@ func (x *explorer) builtin(st *state, fr *frame, name string, args []*Term, inst
 		t := call("len", args...)
 		if l, ok := litLen(t); ok {
 			return tInt(l)
+		}
+		if len(args) == 1 && args[0].Op == "slice" && len(args[0].Args) == 3 && sliceFromStart(args[0]) && args[0].Args[2].Key() != "_" {
+			// len(x[:hi]) is hi
+			return args[0].Args[2]
+		}
+		if len(args) == 1 && args[0].Op == "make" {
+			if n, ok := st.mem["len:"+args[0].Key()]; ok {
+				return n
+			}
 		}
 		return t
 	case "cap":
@@ -1960,6 +2025,14 @@ func (P *Program) inferPure(fn *ssa.Function) bool {
 	// decision some rule needs to see being taken
 	for i := 0; i < fn.Signature.Results().Len(); i++ {
 		if _, isSlice := fn.Signature.Results().At(i).Type().Underlying().(*types.Slice); !isSlice {
+			return false
+		}
+	}
+	// a helper that reads through a pointer (a method of the store listing the expired keys of one of its
+	// tables) answers from mutable state, not from its arguments: it is traversed like any other callee
+	for _, p := range fn.Params {
+		switch p.Type().Underlying().(type) {
+		case *types.Pointer, *types.Map, *types.Interface:
 			return false
 		}
 	}
